@@ -110,6 +110,7 @@ class HarnessResult:
         self.duration_s = None
         self.peak_rss_gb = None
         self.note = ""
+        self.undetermined = 0
 
     def covers_ok(self):
         return all(s == "Satisfied" for _, s in self.covers)
@@ -206,12 +207,13 @@ def _fill_from_json(results, data):
             if cat == "cover" or status in ("Satisfied", "Unsatisfiable", "Unsatisfied"):
                 r.covers.append((desc, "Satisfied" if status == "Satisfied" else status))
                 continue
-            if status in ("Failure", "Undetermined", "Error"):
+            if status in ("Failure", "Error"):
                 item = {"description": desc, "function": c.get("function"), "file": loc.get("file"),
                         "line": loc.get("line"), "category": cat, "status": status}
                 if "unwinding assertion" in desc or cat == "unwind":
                     r.unwinding_failed = True
                 r.failed.append(item)
+        r.undetermined = sum(1 for c in checks if (c.get("status") or "") == "Undetermined")
         if st == "Success":
             r.status = "success"
         elif st == "Failure":
@@ -236,7 +238,9 @@ def _fill_from_log(results, text):
     for q, r in byq.items():
         short = r.h.name
         for ln in text.split("\n"):
-            if short in ln and re.search(r"timed out|TIMEOUT|timeout", ln):
+            if ln.startswith("$ "):
+                continue
+            if short in ln and re.search(r"timed out|TIMEOUT|[Tt]imeout", ln):
                 if r.status in ("missing", "error", "failure") and not r.failed:
                     r.status = "timeout"
                     r.note = ln.strip()[:300]
